@@ -3,6 +3,10 @@
 
    T   : the tables the code reads (any; `live_tables` is what the translator read from /repo)
    nm  : what parse_into_datetime does with naive datetimes (both variants)
+   cp, ck : the class constructor, abstractly: ck v d = None if the class of version v accepts the
+         properties d, else the exception it raises; cp v k x = what property k's clean() stores for x.
+         Both are arbitrary (universally quantified): the constructor can only fail or store the
+         cleaned form of what it is given.  A dict is rebuilt as it is.
    c   : object of a v2.0 / v2.1 class, plain dict, or not a mapping
    d   : the object's properties as an insertion-ordered association list (keys distinct, as in
          a Python dict); ch : the keyword arguments of new_version (distinct; None removes)
@@ -13,7 +17,7 @@
 From Coq Require Import String ZArith List Bool Sorting.Sorted.
 From V Require Import Base.UString Base.Json Model.Timestamp Model.Versioning Spec.VersioningSpec
   Spec.TimestampSpec Gen.VersioningTables Proofs.VersioningFacts Proofs.VersioningProofs Proofs.VersioningChain
-  Proofs.VersioningText.
+  Proofs.VersioningText Proofs.VersioningRefute.
 Import ListNotations.
 Open Scope bool_scope. Open Scope list_scope. Open Scope Z_scope.
 
@@ -53,50 +57,69 @@ Proof. exact fudge21_rule_at_ms_precision_not_strict. Qed.
 Print Assumptions fudge_rules_not_interchangeable.
 
 (* ---- a new version is strictly newer after serialization, whatever the clock reads ---- *)
-Theorem nv_strict : forall T nm c d ch now d' v, good_ver v -> NoDup (keys d) -> NoDup (keys ch) ->
-  check_versionable T c d = Ok v -> new_version T nm c d ch now = Ok d' -> later nm v d d'.
+Theorem nv_strict : forall T nm cp ck c d ch now d' v, good_ver v -> NoDup (keys d) -> NoDup (keys ch) ->
+  check_versionable T c d = Ok v -> new_version T nm cp ck c d ch now = Ok d' -> later nm v d d'.
 Proof. exact nv_strict_lemma. Qed.
 Print Assumptions nv_strict.
 
 (* ... and no clock reading can make the operation fail: a versionable, unrevoked object whose version
-   time is an aware timestamp gets a new version for every `now` *)
-Theorem nv_succeeds : forall T nm c d ch v locked l o, check_versionable T c d = Ok v ->
+   time is an aware timestamp gets a new version for every `now` (an object: provided its class accepts
+   the changed properties whatever the modified time) *)
+Theorem nv_succeeds : forall T nm cp ck c d ch v locked l o, check_versionable T c d = Ok v ->
   revoked_flag d = false -> sco_locked T d = Ok locked ->
   existsb (fun k => has_key k ch) (t_unmod T ++ locked) = false -> plookup kmod ch = None ->
   parse_ts nm v (version_time d) = Ok (l, Some o) ->
-  forall now, exists d', new_version T nm c d ch now = Ok d'.
+  (forall v0 l' o', c = CObject v0 -> ck v0 (drop_none (update d (ch ++ [(kmod, PDt l' o')]))) = None) ->
+  forall now, exists d', new_version T nm cp ck c d ch now = Ok d'.
 Proof. exact nv_succeeds_lemma. Qed.
 Print Assumptions nv_succeeds.
 
 (* a caller-supplied modified time is accepted only if strictly later after serialization, and is applied *)
-Theorem supplied_modified_strict : forall T nm c d ch now d' v s, good_ver v -> NoDup (keys d) -> NoDup (keys ch) ->
-  check_versionable T c d = Ok v -> plookup kmod ch = Some s -> new_version T nm c d ch now = Ok d' ->
+Theorem supplied_modified_strict : forall T nm cp ck c d ch now d' v s, good_ver v -> NoDup (keys d) -> NoDup (keys ch) ->
+  check_versionable T c d = Ok v -> plookup kmod ch = Some s -> new_version T nm cp ck c d ch now = Ok d' ->
   exists a b, ser_value nm v (version_time d) = Some a /\ ser_value nm v (Some s) = Some b /\
               ser_value nm v (version_time d') = Some b /\ a < b.
 Proof. exact supplied_modified_lemma. Qed.
 Print Assumptions supplied_modified_strict.
 
-(* ---- identity: type, id, created and creator are kept ---- *)
-Theorem nv_identity : forall nm c d ch now d' k, NoDup (keys d) -> NoDup (keys ch) ->
-  new_version live_tables nm c d ch now = Ok d' -> In k spec_unmod -> pget k d' = pget k d.
-Proof. intros nm c d ch now d' k. apply nv_identity_spec_lemma. exact tables_unmod. Qed.
+(* ---- identity: type, id, created and creator are kept (in an object: in their cleaned form, which is
+   the value itself when cleaning leaves the object's own, already clean, values alone) ---- *)
+Theorem nv_identity_stored : forall T nm cp ck c d ch now d' k, NoDup (keys d) -> NoDup (keys ch) ->
+  new_version T nm cp ck c d ch now = Ok d' -> In k (t_unmod T) -> ustr_eqb k kmod = false ->
+  plookup k d' = stored cp c k (pget k d).
+Proof. exact nv_identity_stored_lemma. Qed.
+Print Assumptions nv_identity_stored.
+
+Theorem nv_identity : forall nm cp ck c d ch now d' k, NoDup (keys d) -> NoDup (keys ch) ->
+  new_version live_tables nm cp ck c d ch now = Ok d' -> In k spec_unmod ->
+  (forall x, pget k d = Some x -> stored cp c k (Some x) = Some x) ->
+  pget k d' = pget k d.
+Proof. intros nm cp ck c d ch now d' k. apply nv_identity_spec_lemma. exact tables_unmod. Qed.
 Print Assumptions nv_identity.
 
-(* ---- exactly the requested changes; None removes; nothing else differs except modified ---- *)
-Theorem nv_exact : forall T nm c d ch now d', NoDup (keys d) -> NoDup (keys ch) ->
-  new_version T nm c d ch now = Ok d' ->
-  forall k, ustr_eqb k kmod = false -> pget k d' = requested ch d k.
+(* ---- exactly the requested changes; None removes; nothing else differs except modified.  Object and
+   dict routes: every property other than modified holds the requested value -- as given (dict),
+   cleaned (object) ---- *)
+Theorem nv_exact : forall T nm cp ck c d ch now d', NoDup (keys d) -> NoDup (keys ch) ->
+  new_version T nm cp ck c d ch now = Ok d' ->
+  forall k, ustr_eqb k kmod = false -> plookup k d' = stored cp c k (requested ch d k).
 Proof. exact nv_exact_lemma. Qed.
 Print Assumptions nv_exact.
 
+Theorem nv_exact_dict : forall T nm cp ck d ch now d', NoDup (keys d) -> NoDup (keys ch) ->
+  new_version T nm cp ck CDict d ch now = Ok d' ->
+  forall k, ustr_eqb k kmod = false -> pget k d' = requested ch d k.
+Proof. exact nv_exact_dict_lemma. Qed.
+Print Assumptions nv_exact_dict.
+
 (* ---- refusals ---- *)
-Theorem nv_unmodifiable : forall T nm c d ch now k, In k (t_unmod T) -> has_key k ch = true ->
-  forall d', new_version T nm c d ch now <> Ok d'.
+Theorem nv_unmodifiable : forall T nm cp ck c d ch now k, In k (t_unmod T) -> has_key k ch = true ->
+  forall d', new_version T nm cp ck c d ch now <> Ok d'.
 Proof. exact nv_unmodifiable_lemma. Qed.
 Print Assumptions nv_unmodifiable.
 
-Theorem nv_sco_locked : forall T nm c d ch now locked k, sco_locked T d = Ok locked -> In k locked -> has_key k ch = true ->
-  forall d', new_version T nm c d ch now <> Ok d'.
+Theorem nv_sco_locked : forall T nm cp ck c d ch now locked k, sco_locked T d = Ok locked -> In k locked -> has_key k ch = true ->
+  forall d', new_version T nm cp ck c d ch now <> Ok d'.
 Proof. exact nv_sco_locked_lemma. Qed.
 Print Assumptions nv_sco_locked.
 
@@ -109,25 +132,43 @@ Proof. exact sco_locked_uuid5. Qed.
 Print Assumptions sco_locked_when_deterministic.
 
 (* a revoked object can be neither versioned nor revoked again, by any operation *)
-Theorem revoked_final : forall T nm c d o, revoked_flag d = true -> forall d', apply_op T nm c d o <> New d'.
+Theorem revoked_final : forall T nm cp ck c d o, revoked_flag d = true -> forall d', apply_op T nm cp ck c d o <> New d'.
 Proof. exact revoked_final_lemma. Qed.
 Print Assumptions revoked_final.
 
-Theorem revoke_revokes : forall T nm c d now d', NoDup (keys d) -> revoke T nm c d now = Ok d' -> revoked_flag d' = true.
+Theorem revoke_revokes : forall T nm cp ck c d now d', NoDup (keys d) ->
+  (forall v0, c = CObject v0 -> truthy (cp v0 (u "revoked") (PJ (JBool true))) = true) ->   (* clean(True) is true *)
+  revoke T nm cp ck c d now = Ok d' -> revoked_flag d' = true.
 Proof. exact revoke_sets_lemma. Qed.
 Print Assumptions revoke_revokes.
 
-Theorem revoked_chain_ends : forall T nm ops c d, revoked_flag d = true -> new_versions T nm c d ops = [].
+Theorem revoked_chain_ends : forall T nm cp ck ops c d, revoked_flag d = true -> new_versions T nm cp ck c d ops = [].
 Proof. exact revoked_chain_lemma. Qed.
 Print Assumptions revoked_chain_ends.
 
 (* ---- along any chain of new_version / revoke / marking operations, with any clock readings,
-   the serialized modified times strictly increase (induction over the history) ---- *)
-Theorem chain_increasing : forall T nm ops c d v, good_ver v -> tables_ok T ->
-  get_stix_version T c d = Ok v -> NoDup (keys d) -> header_ok d -> Forall op_ok ops ->
-  StronglySorted (later nm v) (d :: new_versions T nm c d ops).
+   the serialized modified times strictly increase (induction over the history).  op_ok: keyword
+   arguments are distinct and, for a dict, no change set rewrites spec_version. ---- *)
+Theorem chain_increasing : forall T nm cp ck ops c d v, good_ver v -> tables_ok T ->
+  get_stix_version T c d = Ok v -> NoDup (keys d) -> Forall (op_ok c) ops ->
+  StronglySorted (later nm v) (d :: new_versions T nm cp ck c d ops).
 Proof. exact chain_increasing_lemma. Qed.
 Print Assumptions chain_increasing.
+
+(* the same for the tables of /repo, whose unmodifiable list protects type and id *)
+Theorem chain_increasing_live : forall nm cp ck ops c d v, good_ver v ->
+  get_stix_version live_tables c d = Ok v -> NoDup (keys d) -> Forall (op_ok c) ops ->
+  StronglySorted (later nm v) (d :: new_versions live_tables nm cp ck c d ops).
+Proof. intros nm cp ck ops c d v GV. apply chain_increasing_lemma; [exact GV|exact tables_header_unmodifiable]. Qed.
+Print Assumptions chain_increasing_live.
+
+(* the remaining hypothesis is needed: rewriting spec_version turns a 2.0 dict into a 2.1 dict whose
+   next version is one microsecond later -- not later at the millisecond precision of the chain *)
+Theorem chain_spec_version_rewrite_refuted :
+  get_stix_version live_tables CDict cx_dict = Ok V20 /\
+  ~ StronglySorted (later NaiveUtc V20) (cx_dict :: new_versions live_tables NaiveUtc clean_id accept_all CDict cx_dict cx_ops).
+Proof. exact spec_version_rewrite_counterexample. Qed.
+Print Assumptions chain_spec_version_rewrite_refuted.
 
 (* ---- "after serialization": ser_value is what the text written by the library denotes
    (format_datetime through the C15 model, read by the strict reader of Spec/TimestampSpec.v) ---- *)
@@ -138,8 +179,8 @@ Theorem ser_is_serialized_text : forall nm v x t, good_ver v -> value_ok v x ->
 Proof. exact ser_text_lemma. Qed.
 Print Assumptions ser_is_serialized_text.
 
-Theorem nv_strict_text : forall T nm c d ch now d' v xo xn, good_ver v -> NoDup (keys d) -> NoDup (keys ch) ->
-  check_versionable T c d = Ok v -> new_version T nm c d ch now = Ok d' ->
+Theorem nv_strict_text : forall T nm cp ck c d ch now d' v xo xn, good_ver v -> NoDup (keys d) -> NoDup (keys ch) ->
+  check_versionable T c d = Ok v -> new_version T nm cp ck c d ch now = Ok d' ->
   version_time d = Some xo -> version_time d' = Some xn -> value_ok v xo -> value_ok v xn ->
   (forall t, ser_value nm v (Some xo) = Some t -> in_range t = true) ->
   (forall t, ser_value nm v (Some xn) = Some t -> in_range t = true) ->
@@ -159,21 +200,21 @@ Definition t2020 : Z := 63713433600000000.
 
 (* clock 999 us after a millisecond-precision modified time: pushed to the next millisecond *)
 Example ex_v20_push :
-  match new_version live_tables NaiveUtc (CObject V20) ex_identity [(u "description", PJ JNull)] (t2020 + 1999) with
+  match new_version live_tables NaiveUtc clean_id accept_all (CObject V20) ex_identity [(u "description", PJ JNull)] (t2020 + 1999) with
   | Ok d' => plookup kmod d' = Some (PDt (t2020 + 2000) (Some 0)) /\ has_key (u "description") d' = false
   | Raise _ => False
   end.
 Proof. vm_compute. split; reflexivity. Qed.
 
 Example ex_v21_equal_clock :
-  match new_version live_tables NaiveUtc CDict ((u "spec_version", PJ (JStr (u "2.1"))) :: ex_identity) [] (t2020 + 1000) with
+  match new_version live_tables NaiveUtc clean_id accept_all CDict ((u "spec_version", PJ (JStr (u "2.1"))) :: ex_identity) [] (t2020 + 1000) with
   | Ok d' => plookup kmod d' = Some (PDt (t2020 + 1001) (Some 0))
   | Raise _ => False
   end.
 Proof. vm_compute. reflexivity. Qed.
 
 Example ex_unmodifiable :
-  new_version live_tables NaiveUtc (CObject V21) ex_identity [(u "id", PJ (JStr (u "identity--x")))] t2020
+  new_version live_tables NaiveUtc clean_id accept_all (CObject V21) ex_identity [(u "id", PJ (JStr (u "identity--x")))] t2020
   = Raise "UnmodifiablePropertyError"%string.
 Proof. vm_compute. reflexivity. Qed.
 
